@@ -148,7 +148,7 @@ def check_results(ctx, calc, case, sig):
             if numpy.any(small):
                 i0, i1 = int(numpy.argmax(z)), int(numpy.argmax(small))
                 ref = numpy.abs(iso[i0]) + 1e-300
-                if numpy.max(numpy.abs(iso[i1] - iso[i0]) / ref) > 1e-6:
+                if not numpy.max(numpy.abs(iso[i1] - iso[i0]) / ref) <= 1e-6:
                     ctx.violation(f"c{k.voigt[0]}{k.voigt[1]}: c(T={t[i1]:g} K) differs from c(0) by {numpy.max(numpy.abs(iso[i1]-iso[i0])/ref):.2e} for {case}",
                                   case, {**sig, "clause": "T_to_0"})
                     return
